@@ -125,6 +125,17 @@ func opConstruct(c Obj) J {
 			out[k] = o
 		}
 		return out
+	case "Duration.Duration":
+		is, _ := c["is"].([]any)
+		out := make([]any, len(is))
+		for k, ij := range is {
+			ms := must(cwf.JToI64(ij))
+			out[k] = Obj{"new": guardJ(func() J {
+				d, err := types.NewDurationFromMillis(ms).Duration()
+				return cwf.ResultToJ(types.Long(int64(d)), err)
+			})}
+		}
+		return out
 	case "NewDecimalFromFloat":
 		fs, _ := c["fs"].([]any)
 		out := make([]any, len(fs))
